@@ -4,7 +4,7 @@ set -u
 S=$1; P=$2; T=${3:-quick}
 cd /repo || exit 2
 if ! git diff --quiet; then echo "/repo has uncommitted changes; refusing"; exit 2; fi
-git apply /verif/seeded/$S/patch.diff 2>/dev/null || { git apply -3 /verif/seeded/$S/patch.diff >/dev/null 2>&1 && git reset -q; } || { echo "patch does not apply"; git checkout -- .; exit 2; }
+git apply /verif/seeded/$S/patch.diff 2>/dev/null || { git apply -3 /verif/seeded/$S/patch.diff >/dev/null 2>&1 && git reset -q; } || { echo "patch does not apply"; git reset -q --hard HEAD; exit 2; }
 cd /verif
 VERIF_EVIDENCE_DIR=/tmp/seeded_evidence ./check.py $P --tier $T > /tmp/seeded_${S}_$P.log 2>&1
 rc=$?
